@@ -178,3 +178,23 @@ pub fn c04_tt_index() {
     kani::cover!(n == 3);
     std::mem::forget(tt);
 }
+
+/// history decay between searches: every cell is divided by the factor (the cell is symbolic, so every cell is covered)
+#[kani::proof]
+#[kani::unwind(66)]
+pub fn c04_history_decay() {
+    let mut h = sa::HistoryTable::new();
+    let w: u16 = kani::any();
+    kani::assume(w != 0);
+    let white: bool = kani::any();
+    let pl = if white { Player::White } else { Player::Black };
+    let v: i32 = kani::any();
+    kani::assume(v >= 0 && v <= sa::HISTORY_MAX_SCORE);
+    #[cfg(test)] println!("REPLAY-CASE {{\"mv\":{},\"value\":{}}}", w, v);
+    sa::tables::history_set(&mut h, pl, move_of(w), v);
+    h.decay(sa::HISTORY_DECAY_FACTOR);
+    assert!(h.get(pl, move_of(w)) == v / 8);
+    assert!(sa::HISTORY_DECAY_FACTOR == 8);
+    kani::cover!(v > 64);
+    std::mem::forget(h);
+}
